@@ -21,11 +21,23 @@ along with the GNU MP Library; see the file COPYING.LIB.  If not, write to
 the Free Software Foundation, Inc., 51 Franklin Street, Fifth Floor, Boston,
 MA 02110-1301, USA. */
 
+#include <stdio.h>
+#include <stdlib.h>
+#include <limits.h>
 #include "mpir.h"
 #include "gmp-impl.h"
 
 void
 mpf_set_prec_raw (mpf_ptr x, mp_bitcnt_t prec_in_bits)
 {
-  x->_mp_prec = __GMPF_BITS_TO_PREC (prec_in_bits);
+  mp_size_t prec = __GMPF_BITS_TO_PREC (prec_in_bits);
+  /* _mp_prec is an int (and prec+1 limbs are allocated): a larger precision
+     cannot be recorded, and storing it would leave a wrong, possibly negative
+     precision behind */
+  if (UNLIKELY (prec > INT_MAX - 1))
+    {
+      fprintf (stderr, "gmp: overflow in mpf type\n");
+      abort ();
+    }
+  x->_mp_prec = prec;
 }
